@@ -1,10 +1,12 @@
 mod gen;
 mod genmsg;
 mod ops3;
+mod ops4;
 mod ops;
 mod ops2;
 mod oracles;
 mod rng;
+mod sweep;
 mod wire;
 
 use std::io::{BufRead, BufWriter, Write};
@@ -68,6 +70,12 @@ fn main() {
                 };
                 writeln!(f, "{}\t{}", wire::print_toks(&out.result), oracle).unwrap();
             }
+        }
+        "ti-sweep" => {
+            if args.len() != 6 {
+                usage();
+            }
+            sweep::run(&args[2], args[3] == "thorough", args[4].parse().expect("seed"), &args[5]);
         }
         _ => usage(),
     }
